@@ -575,11 +575,41 @@ def parser_tables(F):
     lets = [s for k, s in H.stmts_of(h["body"]) if k == "let"]
     first = parse_calls(lets[0]["init"]) if lets else []
     ms = token_match(h)
-    if len(ms) != 1 or not first:
+    if not first:
+        raise AnchorLost("parse_juxt: shape not recognised")
+    juxt_arms = None
+    if len(ms) == 1 and not any(a["body"].get("k") == "Lit" for a in ms[0]["arms"]):
+        juxt_arms = [(token_names(a["pat"]), a["body"]) for a in ms[0]["arms"]]
+    else:
+        # `while !matches!(peeked, A | B | ..) { if let Token::Degree(d) = .. { suffix } else { push } }`: the tokens of the
+        # matches! end the run (they are the `=> break` arm), the if-let is the Degree arm and its else the `_` arm
+        wl = [l for l in hir_walk(h["body"]) if l.get("k") == "Loop" and l.get("src") == "While"]
+        for l in wl:
+            conds = [e for e in hir_walk(l["body"]) if e.get("k") == "If" and e["cond"].get("k") == "Unary" and e["cond"].get("op") == "Not"
+                     and any(m.get("k") == "Match" and any("Token::" in H.pat_str(a["pat"]) for a in m["arms"]) for m in hir_walk(e["cond"]))]
+            if len(conds) != 1 or conds[0].get("else") is None or not [b for b in hir_walk(conds[0]["else"]) if b.get("k") == "Break"]:
+                continue
+            mm = [m for m in hir_walk(conds[0]["cond"]) if m.get("k") == "Match"][0]
+            true_arms = [a for a in mm["arms"] if a["body"].get("k") == "Lit" and a["body"]["lit"].get("v") is True]
+            if len(true_arms) != 1:
+                continue
+            inner = [e for e in hir_walk(conds[0]["then"]) if e.get("k") == "If" and e["cond"].get("k") == "Let" and "Token::" in H.pat_str(e["cond"]["pat"]) and e.get("else") is not None]
+            if len(inner) != 1:
+                continue
+            dp = inner[0]["cond"]["pat"]
+            for _ in range(3):     # `Some(&Token::Degree(d))`: the token pattern inside
+                while dp["pk"] in ("ref", "deref") and dp.get("sub"):
+                    dp = dp["sub"]
+                if dp["pk"] == "tuplestruct" and dp["path"].get("path", "").endswith("Option::Some") and dp.get("subs"):
+                    dp = dp["subs"][0]
+            juxt_arms = [(token_names(true_arms[0]["pat"]), {"k": "Break"}),
+                         (token_names(dp), inner[0]["then"]),
+                         (["_"], inner[0]["else"])]
+    if juxt_arms is None:
         raise AnchorLost("parse_juxt: shape not recognised")
     brk, deg, default = [], None, None
-    for a in ms[0]["arms"]:
-        toks = token_names(a["pat"])
+    for toks, abody in juxt_arms:
+        a = {"body": abody}
         kind, op, call = ctor_of(a["body"])
         if kind == "break":
             brk += toks
